@@ -428,10 +428,16 @@ func (s *simscreen) SetSize(w, h int) {
 		}
 	}
 	s.cursorx, s.cursory = -1, -1
+	changed := w != s.physw || h != s.physh
 	s.physw, s.physh = w, h
 	s.front = newc
 	s.back.Resize(w, h)
 	s.Unlock()
+	if changed {
+		// resizing the logical buffer here keeps Show from noticing the
+		// change, so report it now (without the lock: posting may block)
+		s.postEvent(NewEventResize(w, h))
+	}
 }
 
 func (s *simscreen) GetContents() ([]SimCell, int, int) {
